@@ -1,8 +1,38 @@
-"""Symbolic text: formatting of symbolic numbers into fixed-width decimal fields and parsing them back (used by the
-text-file round trips of C11).  Placeholder API; see C11 for the model."""
+"""fmtstr -- symbolic fixed-point text fields.
+
+`format(SV, " .10f")` must return a `str`.  The returned string has the SHAPE CPython would produce for a value with k
+integer digits (sign/blank, k digits, '.', p decimals) but its first character is a private-use code point that
+identifies the formatted term; the other characters are filler digits.  Real string operations of the analysed code
+(`"nan" in s`, `s.split(".")[0]`, `len`, slicing a prefix, `" ".join`, `write`) therefore behave as on a real rendering,
+and the text can be parsed back symbolically by `parse_token`.
+
+Assumed contract (CPython float.__format__ with presentation 'f'): the correctly rounded decimal expansion with p
+decimals; a prefix that cuts the expansion after d < p decimals denotes the value truncated toward zero at d decimals.
+Hence parsed = T_d(v) with |T_d(v) - v| <= 10^-d + 10^-p/2, T_d weakly increasing and sign preserving.
+k (number of integer digits, 1..KMAX) is decided by the engine (case split on |v| < 10^k).
+"""
 from __future__ import annotations
 
-from vf.symx import SV, Unsupported
+import re
+
+import z3
+
+from vf.symx import SV, Engine, R, Unsupported, zval
+
+BASE = 0xE000
+KMAX = 6
+_REG = {}  # code point -> (z3 term, k, precision)
+_FUN = {}
+
+
+def reset():
+    _REG.clear()
+
+
+def _trunc_fn(d):
+    if d not in _FUN:
+        _FUN[d] = z3.Function("fmt_trunc_%d" % d, R, R)
+    return _FUN[d]
 
 
 def join_text(parts):
@@ -10,4 +40,96 @@ def join_text(parts):
 
 
 def format_sv(sv, spec):
-    raise Unsupported("format() of a symbolic value (spec %r)" % (spec,))
+    m = re.fullmatch(r"([ +-]?)\.(\d+)([fe])", spec)
+    if not m:
+        raise Unsupported("format spec %r on a symbolic value" % (spec,))
+    sign, prec, kind = m.group(1), int(m.group(2)), m.group(3)
+    if kind == "e":
+        return " 0." + "0" * prec + "e+00"  # scientific fields are never read back by the library
+    eng = Engine.cur
+    v = sv.e if not sv.is_int else z3.ToReal(sv.e)
+    a = z3.If(v >= 0, v, -v)
+    k = None
+    for kk in range(1, KMAX + 1):
+        if eng.decide(a < z3.RealVal(10**kk)):
+            k = kk
+            break
+    if k is None:
+        raise Unsupported("formatted magnitude beyond 10^%d" % KMAX)
+    code = BASE + len(_REG)
+    _REG[code] = (v, k, prec)
+    # leading character: stands for the sign position (' ' / '-'); then k digits, '.', prec decimals
+    lead = chr(code)
+    if sign == "":
+        # without a sign flag a non-negative number has no leading blank: not used by the library
+        raise Unsupported("format without sign flag")
+    return lead + "7" * k + "." + "7" * prec
+
+
+def is_token(tok):
+    return len(tok) > 0 and BASE <= ord(tok[0]) < BASE + 0x1800
+
+
+def parse_token(tok):
+    """symbolic value denoted by a (possibly prefix-truncated) formatted field"""
+    from vf.symx import SV
+
+    eng = Engine.cur
+    v, k, prec = _REG[ord(tok[0])]
+    body = tok[1:]
+    if "." in body:
+        ip, dp = body.split(".", 1)
+    else:
+        ip, dp = body, ""
+    if len(ip) != k or set(ip + dp) - {"7"}:
+        raise ValueError("could not convert string to float: damaged field %r" % tok)
+    d = len(dp)
+    if d >= prec:
+        bound = z3.RealVal(10) ** (-prec) / 2  # only the rounding of the expansion itself
+        d = prec
+    else:
+        bound = z3.RealVal(1) / z3.RealVal(10**d) + z3.RealVal(1) / z3.RealVal(2 * 10**prec)
+    f = _trunc_fn(d)
+    apps = eng.uf_apps.setdefault("fmt_trunc_%d" % d, [])
+    if not any(b.eq(v) for b in apps):
+        for b in apps:
+            eng.add_axiom(z3.And(z3.Implies(v <= b, f(v) <= f(b)), z3.Implies(b <= v, f(b) <= f(v))))
+        apps.append(v)
+        eng.add_axiom(z3.And(f(v) - v <= bound, v - f(v) <= bound))
+        eng.add_axiom(z3.And(z3.Implies(v >= 0, f(v) >= 0), z3.Implies(v <= 0, f(v) <= 0)))
+    return SV(f(v)), bound
+
+
+def loadtxt_symbolic(text, ndmin=0, **kw):
+    """np.loadtxt over text that may contain symbolic fields: '#' comments skipped, whitespace separated columns"""
+    import numpy as np
+
+    from vf.symx import sarr
+
+    rows = []
+    for line in text.splitlines():
+        line = line.split("#", 1)[0].strip()
+        if not line:
+            continue
+        row = []
+        for tok in line.split():
+            row.append(parse_token(tok)[0] if is_token(tok) else float(tok))
+        rows.append(row)
+    if not rows:
+        return np.array([])
+    if len({len(r) for r in rows}) != 1:
+        raise ValueError("the number of columns changed")
+    arr = sarr(rows)
+    if arr.shape[0] == 1 and ndmin < 2:
+        arr = arr[0]  # numpy squeezes a single row
+        if arr.shape[0] == 1 and ndmin < 1:
+            arr = arr[0]
+    elif arr.shape[1] == 1 and ndmin < 2:
+        arr = arr[:, 0]
+    if kw.get("unpack"):
+        arr = arr.T
+    return arr
+
+
+def has_tokens(text):
+    return any(BASE <= ord(ch) < BASE + 0x1800 for ch in text)
